@@ -64,3 +64,64 @@ pub enum ReceiverGeneration {
     Rewrite,
     None,
 }
+
+/// In a signature that has both a `&self` receiver and the `__impl` dependency (dynamic delegation), an
+/// elided lifetime in the return type would refer to `&self`. The function behind the method borrows
+/// from its dependency, which is `__impl`: name that lifetime.
+pub fn tie_elided_output_to_impl(sig: &mut syn::Signature) {
+    use syn::visit_mut::VisitMut;
+
+    struct Elided {
+        lifetime: syn::Lifetime,
+        found: bool,
+    }
+
+    impl VisitMut for Elided {
+        fn visit_type_reference_mut(&mut self, reference: &mut syn::TypeReference) {
+            if reference.lifetime.is_none() {
+                reference.lifetime = Some(self.lifetime.clone());
+                self.found = true;
+            }
+            syn::visit_mut::visit_type_reference_mut(self, reference);
+        }
+
+        fn visit_lifetime_mut(&mut self, lifetime: &mut syn::Lifetime) {
+            if lifetime.ident == "_" {
+                *lifetime = self.lifetime.clone();
+                self.found = true;
+            }
+        }
+
+        // elision inside `fn(..) -> ..` and `Fn(..) -> ..` has a scope of its own
+        fn visit_type_bare_fn_mut(&mut self, _: &mut syn::TypeBareFn) {}
+        fn visit_parenthesized_generic_arguments_mut(
+            &mut self,
+            _: &mut syn::ParenthesizedGenericArguments,
+        ) {
+        }
+    }
+
+    let mut elided = Elided {
+        lifetime: syn::Lifetime::new("'entrait_impl", proc_macro2::Span::call_site()),
+        found: false,
+    };
+
+    if let syn::ReturnType::Type(_, ty) = &mut sig.output {
+        elided.visit_type_mut(ty);
+    }
+
+    if !elided.found {
+        return;
+    }
+
+    if let Some(syn::FnArg::Typed(impl_param)) = sig.inputs.iter_mut().nth(1) {
+        if let syn::Type::Reference(reference) = impl_param.ty.as_mut() {
+            reference.lifetime = Some(elided.lifetime.clone());
+        }
+    }
+
+    let lifetime = elided.lifetime;
+    sig.generics
+        .params
+        .insert(0, syn::parse_quote! { #lifetime });
+}
